@@ -54,7 +54,15 @@ Proof. exact run_config_recorded. Qed.
      it has none);
    - every requested time e has a stored value within tolu of e, and that is the only stored
      value within tolb of e;
-   - values are stored in strictly increasing time order. *)
+   - values are stored in strictly increasing time order.
+   The input premise is NOT implied by what pulser accepts, and the case it excludes is a genuine
+   violation of the property on the current code: the open known finding
+   `recorded-within-gate-tolerance` (see C14_recorded_exactly_requested_refuted below).  When a
+   requested time e lies between 1e-12 and 1e-10 (relative) of another grid time g that is not
+   requested for the observable (a multiple of dt, or a time of another observable), the adapter
+   does not merge them (merge tolerance 1e-12) but both backends' _is_evaluation_time accepts g
+   (gate tolerance 1e-10): the observable is recorded at g as well.  Two genuinely requested
+   times that close are both recorded, which is correct. *)
 Theorem C14_recorded_exactly_at_requested_times :
   forall tolb tol0 tolu mps dur dt (obs : list (option (list R))) dflt,
   0 < dur -> 0 < dt -> 0 < tolu < 1 -> 0 <= tol0 ->
@@ -130,3 +138,14 @@ Theorem C14_f07_full_witness_now_passes_float :
     run_config float_arith float_floor w_tolb w_tol0 w_tolu true 100%float 0.25%float [Some w07_own] None = Ok st2 /\
     recorded_times (Ok st2) 0 = w07_own.
 Proof. exact f07_full_witness_float. Qed.
+
+(* REFUTED without the input premise, on the faithful binary64 model (open known finding
+   recorded-within-gate-tolerance): duration 100 ns, dt 10, one observable with the single own
+   time 0.5 + 5e-11.  The grid keeps both 50 ns (multiple of dt) and 50.000000005 ns, and the
+   observable is recorded at 0.5 (not requested) and at 0.50000000005, on both backend flavours. *)
+Theorem C14_recorded_exactly_requested_refuted :
+  forall mps, exists st,
+    run_config float_arith float_floor w_tolb w_tol0 w_tolu mps 100%float 10%float
+               [Some [w_gate_q]] (Some [1%float]) = Ok st /\
+    recorded_times (Ok st) 0 = [0.5%float; w_gate_q].
+Proof. exact gate_tolerance_witness_float. Qed.
